@@ -1476,3 +1476,64 @@ Proof.
   - replace (y0 + h - sh (r_br c)) with (py (P (x0 + w - sw (r_br c)) (y0 + h - sh (r_br c)))) in * by reflexivity.
     apply (cond_bot_down _ (r_br c) QBottomRight false x y3 y2); [reflexivity|lia|cbn [py]; lia|exact Hbr3].
 Qed.
+
+(* ---- C18: corners are ellipse quadrants ---- *)
+Definition quadrants : list quadrant := [QTopLeft; QTopRight; QBottomRight; QBottomLeft].
+
+(* top-left corner of the full ellipse a quadrant is cut from (ellipse_quadrant.rs:30-35) *)
+Definition quadrant_ellipse_top_left (t : point) (rad : size) (q : quadrant) : point :=
+  match q with
+  | QTopLeft => t
+  | QTopRight => psub_size t (x_axis rad)
+  | QBottomRight => psub_size t rad
+  | QBottomLeft => psub_size t (y_axis rad)
+  end.
+
+(* EllipseQuadrant::contains is Ellipse::contains of the ellipse with twice the radius as size *)
+Lemma eq_contains_is_ellipse t rad q p :
+  eq_contains (eq_new t rad q) p =
+  rr_ellipse_contains (quadrant_ellipse_top_left t rad q) (S (sw rad * 2) (sh rad * 2)) p.
+Proof. destruct q; reflexivity. Qed.
+
+Lemma quad_bool X Y e : negb (Y && X && negb e) = negb (X && Y) || e.
+Proof. destruct X, Y, e; reflexivity. Qed.
+
+Lemma contains_box_bool x0 y0 a b p :
+  contains (R (P x0 y0) (S a b)) p = ((x0 <=? px p) && (px p <? x0 + a)) && ((y0 <=? py p) && (py p <? y0 + b)).
+Proof. apply eq_true_iff_eq. rewrite contains_spec. cbn [tl sz px py sw sh]. lia. Qed.
+
+(* contains() = inside the base rectangle, and inside the ellipse quadrant of every corner box the point lies in *)
+Theorem rr_contains_quadrants r p :
+  rr_ok r ->
+  rr_contains r p =
+  contains (rr_rect r) p &&
+  forallb (fun q => let e := corner_quadrant r q in negb (contains (eq_bbox e) p) || eq_contains e p) quadrants.
+Proof.
+  intros Hok. pose proof (rrc_new_fields r Hok) as F. cbv zeta in F.
+  destruct F as (Frows & Fcols & Fsrl & Fsrr & Ftl & Ftr & Fbr & Fbl).
+  assert (c_tl (rrc_new r) = corner_quadrant r QTopLeft) as Qtl by reflexivity.
+  assert (c_tr (rrc_new r) = corner_quadrant r QTopRight) as Qtr by reflexivity.
+  assert (c_br (rrc_new r) = corner_quadrant r QBottomRight) as Qbr by reflexivity.
+  assert (c_bl (rrc_new r) = corner_quadrant r QBottomLeft) as Qbl by reflexivity.
+  unfold quadrants. cbn [forallb]. cbv zeta. rewrite <- Qtl, <- Qtr, <- Qbr, <- Qbl.
+  unfold rr_contains. rewrite rrc_contains_and. unfold cond_top, cond_bot, side_test.
+  rewrite Frows, Fcols, Fsrl, Fsrr. rewrite Ftl, Ftr, Fbr, Fbl. rewrite !eq_new_bbox.
+  destruct (conf_facts r Hok) as [Hnn Hfit].
+  destruct Hnn as ((A1 & B1) & (A2 & B2) & (A3 & B3) & (A4 & B4)).
+  destruct Hfit as (T & Bo & L & Ri).
+  destruct Hok as [[Hp Hs] _]. unfold point_ok, size_ok in Hp, Hs.
+  set (x0 := px (tl (rr_rect r))) in *. set (y0 := py (tl (rr_rect r))) in *.
+  set (w := sw (sz (rr_rect r))) in *. set (h := sh (sz (rr_rect r))) in *. set (c := conf r) in *.
+  rewrite !columns_R; try (cbn [px]; unfold bound in *; lia). cbn [fst snd px py].
+  replace (rr_rect r) with (R (P x0 y0) (S w h)) by (destruct (rr_rect r) as [[? ?] [? ?]]; reflexivity).
+  destruct (r_tl c) as [a1 b1], (r_tr c) as [a2 b2], (r_br c) as [a3 b3], (r_bl c) as [a4 b4]. cbn [sw sh] in *.
+  rewrite !contains_box_bool. unfold in_rng. cbn [fst snd].
+  repeat match goal with |- context [eq_contains ?q ?pt] => generalize (eq_contains q pt); intro end.
+  destruct (y0 <=? py p) eqn:E1; destruct (py p <? y0 + h) eqn:E2; destruct (x0 <=? px p) eqn:E3; destruct (px p <? x0 + w) eqn:E4;
+    cbn [andb]; try reflexivity.
+  replace (px p <? x0 + w - a2 + a2) with true by lia. replace (px p <? x0 + w - a3 + a3) with true by lia.
+  replace (py p <? y0 + h - b3 + b3) with true by lia. replace (py p <? y0 + h - b4 + b4) with true by lia.
+  rewrite ?andb_true_r. rewrite <- !quad_bool.
+  repeat match goal with |- context [negb ?t] => generalize (negb t); intro end.
+  repeat match goal with b : bool |- _ => destruct b end; reflexivity.
+Qed.
